@@ -19,4 +19,15 @@ Extraction "model_c02.ml" keepN keepZ enc dec wfv wfs hex unhex refined writer_f
   PlutusList Redeemers Metadatum GeneralTransactionMetadata AuxiliaryData DataOption ScriptRef
   TransactionOutputLegacy TransactionOutputLegacyDH TransactionOutputMap TransactionOutput
   TransactionOutputs TransactionBody Vkeywitness Vkeywitnesses BootstrapWitness BootstrapWitnesses
-  TransactionWitnessSet Transaction VRFCert OperationalCert HeaderBody Header Block IntS HeaderBodyPraos HeaderPraos.
+  TransactionWitnessSet Transaction VRFCert OperationalCert HeaderBody Header Block IntS HeaderBodyPraos HeaderPraos
+  BlockPraos StakeRegistration StakeDeregistration StakeDelegation PoolParams PoolRegistration PoolRetirement
+  GenesisKeyDelegation MoveInstantaneousRewardsCert VoteDelegation StakeAndVoteDelegation
+  StakeRegistrationAndDelegation VoteRegistrationAndDelegation StakeVoteRegistrationAndDelegation
+  CommitteeHotAuth CommitteeColdResign DRepRegistration DRepDeregistration DRepUpdate
+  SingleHostAddr SingleHostName MultiHostName Ipv4 Ipv6 URL DNSName Committee
+  ParameterChangeAction HardForkInitiationAction TreasuryWithdrawalsAction NoConfidenceAction
+  UpdateCommitteeAction NewConstitutionAction MetadataList MetadataMap PlutusMap ConstrPlutusData
+  BigInt Redeemer RedeemerTag Language CostModel NetworkId Vkey AssetNameS PlutusScriptBytes
+  MIRToStakeCredentials TransactionBodies TransactionWitnessSets TransactionUnspentOutput
+  ScriptPubkey ScriptAll ScriptAny ScriptNOfK TimelockStart TimelockExpiry AssetNames GenesisHashes ScriptHashes
+  RewardAddresses TransactionMetadatumLabels BigNum VersionedBlock.
